@@ -454,6 +454,9 @@ def d2_roles(ctx, idx):
             cb = prov.callees_in_chain(c.args[1]) - {'isinstance'}
             if ca == cb:
                 r.ok(construct + ' [transform]', 'the same transform chain %s on both sides' % sorted(ca), lib.loc(fi, c))
+            elif ca and cb:
+                r.undecided(construct + ' [transform]', 'the two sides are prepared by different calls (%s vs %s)' % (sorted(ca), sorted(cb)),
+                            lib.loc(fi, c))
             else:
                 r.violation(construct + ' [transform]', 'the two sides are prepared differently (%s vs %s): the configured '
                             'transform is applied to one side only' % (sorted(ca), sorted(cb)), lib.loc(fi, c))
